@@ -135,6 +135,14 @@ async def main():
         if shared_client is not None:
             async with shared_client:
                 yield shared_client.get_streams()
+        elif api == "client_object_pending_stream":
+            # the per-request API: a request registered and written, its answer never comes (or comes late)
+            from chuk_mcp.transports.stdio.stdio_client import StdioClient
+            from chuk_mcp.protocol.messages.json_rpc_message import create_request
+            async with StdioClient(params) as client:
+                obs["pending_stream"] = client.new_request_stream("p-1")
+                await client.send_json(create_request("tools/call", {"name": "slow"}, id="p-1"))
+                yield client.get_streams()
         elif api == "transport":
             from chuk_mcp.transports.stdio.transport import StdioTransport
             async with StdioTransport(params) as tr:
@@ -239,6 +247,7 @@ async def main():
     except BaseException as e:  # noqa
         obs["body_outcome"] = "raised:" + type(e).__name__ + ":" + str(e)[:100]
     # synchronously, before the loop gets another turn: the property speaks of the moment the context is left
+    obs.pop("pending_stream", None)
     obs["states_at_exit"] = {str(p): proc_state(p) for p in obs["pids"]}
     comp_pid = companion.get("pid") if companion else None
     obs["unknown_children_at_exit"] = [[p_, s_] for p_, s_ in my_children() if p_ not in obs["pids"] and p_ != comp_pid]
